@@ -776,6 +776,7 @@ def contract_handler(c):
                 stx.memo[memo_key] = res
             yield stx, res
     h.contract = c
+    h.contract = c
     return h
 
 
